@@ -45,9 +45,10 @@ func strLit(s string) string {
 
 var longA = strings.Repeat("a", 249)
 
-// typedColumns returns the typed columns; fracTemporal adds fractional seconds to the
-// TIMESTAMP and TIME pools (the region of finding C35-bin-temporal-decimals).
-func typedColumns(fracTemporal bool) []column {
+// typedColumns returns the typed columns; fracTs / fracTime add fractional seconds to the
+// TIMESTAMP resp. TIME pool (the regions of the findings C35-bin-timestamp-decimals and
+// C35-bin-time-decimals: left out of the search only while the finding is listed as known).
+func typedColumns(fracTs, fracTime bool) []column {
 	cols := []column{
 		{"c_i8", "TINYINT", []string{"0", "-128", "127", "NULL", "5"}},
 		{"c_u8", "TINYINT UNSIGNED", []string{"0", "255", "NULL", "7"}},
@@ -82,8 +83,10 @@ func typedColumns(fracTemporal bool) []column {
 	}
 	ts := column{"c_ts", "TIMESTAMP(6)", []string{"'1970-01-01 00:00:01.000000'", "'2038-01-19 03:14:07.000000'", "'2020-02-29 12:34:56.000000'", "NULL", "'2001-09-09 01:46:40.000000'"}}
 	tm := column{"c_time", "TIME", []string{"'00:00:00'", "'-838:59:59'", "'838:59:59'", "'12:34:56'", "'-00:00:01'", "NULL", "'100:00:00'"}}
-	if fracTemporal {
+	if fracTs {
 		ts.pool = append(ts.pool, "'2038-01-19 03:14:07.999999'", "'2020-02-29 12:34:56.000001'", "'1999-12-31 23:59:59.500000'")
+	}
+	if fracTime {
 		tm.pool = append(tm.pool, "'12:34:56.789'", "'-838:59:58.999999'", "'00:00:00.000001'")
 	}
 	return append(cols, ts, tm)
@@ -105,8 +108,8 @@ func (d *dataset) cell(row, col int) string {
 
 func (d *dataset) N() int { return d.R * d.R }
 
-func drawDataset(rt *rapid.T, R int, fracTemporal bool) *dataset {
-	d := &dataset{R: R, cols: typedColumns(fracTemporal)}
+func drawDataset(rt *rapid.T, R int, fracTs, fracTime bool) *dataset {
+	d := &dataset{R: R, cols: typedColumns(fracTs, fracTime)}
 	// a few drawn values per case on top of the fixed boundary pools
 	for i := range d.cols {
 		c := &d.cols[i]
